@@ -1317,6 +1317,15 @@ fn run_cache_k<K: std::hash::Hash + Eq + core::fmt::Debug>(cap: u64, ops: &[&str
                         regions.push((v.as_ptr() as usize, v.as_ptr() as usize + v.len(), *k));
                     }
                     if c.contains(&mk(*k)) != true { s.push_str(" x_contains_mismatch=1"); }
+                    // typed lookup with the identity decoder (OutPoint::from_bytes wraps the bytes it is given):
+                    // it must be handed exactly the stored bytes
+                    match c.get_value::<bsl::OutPoint>(&mk(*k)) {
+                        Some(o) => {
+                            let r: &[u8] = o.as_ref();
+                            if r.as_ptr() != v.as_ptr() || r.len() != v.len() { s.push_str(" x_getvalue_mismatch=1"); }
+                        }
+                        None => s.push_str(" x_getvalue_mismatch=1"),
+                    }
                 }
                 None => {
                     write!(s, " o={},0", k).unwrap();
@@ -1355,6 +1364,65 @@ fn run_cache(cap: u64, ops: &[&str]) -> String {
     let plain = run_cache_k::<u64>(cap, ops, |k| k);
     let weak = catch_unwind(AssertUnwindSafe(|| run_cache_k::<WeakKey>(cap, ops, WeakKey))).unwrap_or_else(|_| " panic=".to_string());
     if weak != plain { format!("{} x_weakkey=0", weak) } else { plain }
+}
+
+// ---------- transactions of 2^k bytes and more (C16 / C10 / C02 where 32-bit intermediate arithmetic would wrap) ----------
+fn run_bigtx(lg: u32) -> String {
+    let n = 1usize << lg;
+    for segwit in [false, true] {
+        let mut b: Vec<u8> = Vec::with_capacity(n + 200);
+        b.extend_from_slice(&2i32.to_le_bytes());
+        if segwit {
+            b.extend_from_slice(&[0, 1]);
+        }
+        b.push(1);
+        b.extend_from_slice(&[0x11; 32]);
+        b.extend_from_slice(&7u32.to_le_bytes());
+        b.push(0);
+        b.extend_from_slice(&0xFFFF_FFFEu32.to_le_bytes());
+        b.push(1);
+        b.extend_from_slice(&5000u64.to_le_bytes());
+        if n <= u32::MAX as usize {
+            b.push(0xFE);
+            b.extend_from_slice(&(n as u32).to_le_bytes());
+        } else {
+            b.push(0xFF);
+            b.extend_from_slice(&(n as u64).to_le_bytes());
+        }
+        b.resize(b.len() + n, 0x6a);
+        let wit_len = if segwit { 3usize } else { 0 };
+        if segwit {
+            b.extend_from_slice(&[1, 1, 0x99]);
+        }
+        b.extend_from_slice(&9u32.to_le_bytes());
+        let total = b.len();
+        b.extend_from_slice(&[0xAB, 0xCD]);
+        let tag = if segwit { "segwit" } else { "legacy" };
+        let p = match bsl::Transaction::parse(&b) {
+            Ok(p) => p,
+            Err(e) => return format!(" x_bigtx={}:parse:{:?}", tag, e),
+        };
+        if p.consumed() != total || p.remaining().len() != 2 {
+            return format!(" x_bigtx={}:consumed", tag);
+        }
+        let t = p.parsed();
+        let stripped = if segwit { total - 2 - wit_len } else { total };
+        let want = 3 * stripped as u64 + total as u64;
+        match catch_unwind(AssertUnwindSafe(|| t.weight())) {
+            Ok(w) if w == want => {}
+            Ok(w) => return format!(" x_bigtx={}:weight:{}:{}", tag, w, want),
+            Err(_) => return format!(" x_bigtx={}:weight:panic", tag),
+        }
+        match catch_unwind(AssertUnwindSafe(|| { let (x, y, z) = t.txid_preimage(); x.len() + y.len() + z.len() })) {
+            Ok(l) if l == stripped => {}
+            Ok(_) => return format!(" x_bigtx={}:preimage_len", tag),
+            Err(_) => return format!(" x_bigtx={}:preimage_len:panic", tag),
+        }
+        if t.locktime() != 9 || t.version() != 2 {
+            return format!(" x_bigtx={}:fields", tag);
+        }
+    }
+    " x_bigtx=ok".to_string()
 }
 
 // ---------- a cache larger than 4 GiB (C06/C11/C13 beyond the 32-bit range: about 4.2 GB resident for a few seconds) ----------
@@ -1564,6 +1632,12 @@ fn main() {
                     Ok(s) => writeln!(out, "{}{}", id, s).unwrap(),
                     Err(_) => writeln!(out, "{} panic=", id).unwrap(),
                 }
+            }
+            "B" if f[1].starts_with("robigtx") => {
+                // B robigtx<k> <log2 of the script length>: transactions of a gigabyte and more (implementation only)
+                let lg: u32 = f[2].parse().unwrap();
+                let r = catch_unwind(AssertUnwindSafe(|| run_bigtx(lg)));
+                writeln!(out, "{}{}", f[1], r.unwrap_or_else(|_| " x_bigtx=panic".to_string())).unwrap();
             }
             "B" => {
                 let r = catch_unwind(AssertUnwindSafe(run_bigcache));
